@@ -6,6 +6,7 @@ from markdown_it.rules_core import StateCore
 from mdit_py_plugins.anchors import anchors_plugin
 
 from myst_parser.config.main import MdParserConfig
+from myst_parser.mdit_to_docutils.base import default_slugify
 from myst_parser.parsers.mdit import create_md_parser
 
 
@@ -32,7 +33,7 @@ def print_anchors(args=None):
     )
     args = arg_parser.parse_args(args)
     parser = create_md_parser(MdParserConfig(), RendererHTML)
-    parser.use(anchors_plugin, max_level=args.level)
+    parser.use(anchors_plugin, max_level=args.level, slug_func=default_slugify)
 
     def _filter_plugin(state: StateCore) -> None:
         state.tokens = [
